@@ -1,6 +1,6 @@
 (* C09 - code that is not JSX is left exactly as written. Statements only. *)
 From VJ Require Import Model.Str Model.Json Model.Ast Model.State Model.Visitor Model.Types
-  Spec.Plain Lemmas.IdentityProofs.
+  Spec.Plain Lemmas.NodeInd Lemmas.IdentityProofs.
 
 (* a module of any size without JSX, transformed without resolveType, is returned unchanged:
    same items, same order, no import, helper or declaration added - under every other option,
@@ -8,13 +8,13 @@ From VJ Require Import Model.Str Model.Json Model.Ast Model.State Model.Visitor 
 Theorem C09_identity :
   forall (E : env), o_resolve_type (e_opts E) = false ->
   forall m : node, jsx_free m = true ->
-    fst (transform_module E (hook_call E) (hook_declarator E) (register_ts_decl E) m) = m.
+    fst (transform_module E (hook_call E) (hook_declarator E) (collect_ts_decls E subs) m) = m.
 Proof. exact module_identity. Qed.
 Print Assumptions C09_identity.
 Check C09_identity :
   forall (E : env), o_resolve_type (e_opts E) = false ->
   forall m : node, jsx_free m = true ->
-    fst (transform_module E (hook_call E) (hook_declarator E) (register_ts_decl E) m) = m.
+    fst (transform_module E (hook_call E) (hook_declarator E) (collect_ts_decls E subs) m) = m.
 
 (* every JSX-free expression, statement or declaration is passed through by the traversal,
    in every traversal mode, and the visitor state is untouched except for the remembered
@@ -23,7 +23,7 @@ Theorem C09_visit_identity :
   forall (E : env), o_resolve_type (e_opts E) = false ->
   forall (n : node), jsx_free n = true ->
   forall (m : mode) (s : st),
-    exists s', visit E (hook_call E) (hook_declarator E) (register_ts_decl E) m n s = (n, s')
+    exists s', visit E (hook_call E) (hook_declarator E) m n s = (n, s')
                /\ same_but_dc s s'.
 Proof. intros E H n. exact (visit_identity E H n). Qed.
 Print Assumptions C09_visit_identity.
